@@ -25,22 +25,24 @@ RULE = ('Generated panels (2-6 geos quick / 2-7 thorough, plus 8-20 geos greedy-
 ASSUMPTIONS = ['real-valued bounds: a violation needs to exceed the bound by > 1e-9 relative',
                'an unspecified constraint is never read by the oracle']
 EXHAUSTIVE = {'quick': False, 'thorough': False}
-MINIMA = {'quick': {'high_level_panels': 20, 'share_gap_cases': 8, 'near_bound_cases': 50, 'designs_checked': 300, 'distinct_nontrivial': 80, 'on_bound_designs': 20, 'greedy_with_budget': 15},
-          'thorough': {'high_level_panels': 250, 'share_gap_cases': 80, 'near_bound_cases': 500, 'designs_checked': 5000, 'distinct_nontrivial': 1000, 'on_bound_designs': 300, 'greedy_with_budget': 200}}
+MINIMA = {'quick': {'collinear_cases': 10, 'high_level_panels': 20, 'share_gap_cases': 8, 'near_bound_cases': 50, 'designs_checked': 300, 'distinct_nontrivial': 80, 'on_bound_designs': 20, 'greedy_with_budget': 15},
+          'thorough': {'collinear_cases': 100, 'high_level_panels': 250, 'share_gap_cases': 80, 'near_bound_cases': 500, 'designs_checked': 5000, 'distinct_nontrivial': 1000, 'on_bound_designs': 300, 'greedy_with_budget': 200}}
 N = {'quick': 384, 'thorough': 3600}
 N_LARGE = {'quick': 16, 'thorough': 120}
 N_NEAR = {'quick': 96, 'thorough': 900}
 N_GAP = {'quick': 48, 'thorough': 400}
+N_COL = {'quick': 24, 'thorough': 200}
 CASE_TIMEOUT = {'quick': 300, 'thorough': 900}
 
 
 def n_cases(tier):
-  return N[tier] + N_LARGE[tier] + N_NEAR[tier] + N_GAP[tier]
+  return N[tier] + N_LARGE[tier] + N_NEAR[tier] + N_GAP[tier] + N_COL[tier]
 
 
 def gen_case(tier, seed, idx):
   kind = 'random' if idx < N[tier] else ('large' if idx < N[tier] + N_LARGE[tier] else
-                                          'near' if idx < N[tier] + N_LARGE[tier] + N_NEAR[tier] else 'gap')
+                                          'near' if idx < N[tier] + N_LARGE[tier] + N_NEAR[tier] else
+                                          'gap' if idx < N[tier] + N_LARGE[tier] + N_NEAR[tier] + N_GAP[tier] else 'collinear')
   return {'tier': tier, 'seed': seed, 'idx': idx, 'kind': kind}
 
 
@@ -183,6 +185,61 @@ def run_share_gap(spec, r, g):
           'case': sl.describe(case2) if violations else None}
 
 
+def run_collinear(spec, r, g):
+  """A control-only geo follows a treatment-only geo almost perfectly (correlation 1 - 5e-11 .. 1 - 5e-12, not 1): the
+  pair needs very little budget; the LOWER budget bound is put at twice that budget, so the pair must not be returned."""
+  import numpy as np
+  from mmv import gen
+  G = r.randrange(3, 6)
+  case = sl.make_case(r, g, G, cls='continuous', allow=('size',), elig_mode='ctx', elig_extra='none', n_dates=r.randrange(15, 60))
+  pn = case['panel']
+  desc0 = sl.describe(case, with_frame=False)
+  skip = {'nontrivial': False, 'fp': util.fp(desc0), 'classes': ['collinear-skip'], 'counters': {'collinear_skipped': 1},
+          'violations': [], 'sample': None}
+  if any(f.startswith('unit=') for f in pn['features']):
+    return skip
+  a, b = r.sample(range(G), 2)
+  delta = r.choice([1e-5, 3e-6])
+  va = pn['values'][a]
+  pn['values'][b] = r.choice([0.5, 1.0, 2.0]) * va + float(np.std(va)) * delta * g.standard_normal(len(va))
+  pn['present'][:] = True
+  pn['dups'] = None
+  pn['features'] = list(pn['features']) + ['collinear:%d,%d' % (a, b)]
+  ids = [str(i) for i in pn['ids']]
+  case['elig_rows'] = {gid: ('tx' if k == a else 'cx' if k == b else 'ctx') for k, gid in enumerate(ids)}
+  case['frame'] = gen.panel_frame(pn, r, shuffle=True)
+  kw = {k: v for k, v in case['params'].items() if k not in ('treatment_geos_range', 'control_geos_range', 'geo_ratio_tolerance',
+                                                             'volume_ratio_tolerance', 'budget_range', 'n_geos_max',
+                                                             'treatment_share_range')}
+  kw['n_designs'] = 100000
+  case['params'] = kw
+  case['prior_long_window'] = False
+  truth = sl.Truth(case)
+  if truth.iroas <= 0:
+    return skip
+  x_, y_ = truth.series([ids[b]]), truth.series([ids[a]])
+  c_ = float(np.corrcoef(x_, y_)[0, 1])
+  if not (1 - 1e-9 < c_ < 1.0):
+    return skip
+  B = truth.req_impact([ids[a]], [ids[b]]) / truth.iroas
+  kw['budget_range'] = (2.0 * B, 1e9 * B)
+  truth = sl.Truth(case)
+  counters = collections.Counter(collinear_cases=1)
+  violations = []
+  desc = sl.describe(case, with_frame=False)
+  for which in ('exhaustive', 'greedy'):
+    rec = sl.run_search(case, which)
+    if rec['outcome'].ok and rec['designs'] is not None:
+      v, _ = sp.c02_clauses(case, truth, rec, which)
+      for x in v:
+        x['detail'] = '[lower budget bound at twice the budget of a nearly collinear pair] ' + x['detail']
+      violations += v
+      counters['designs_checked'] += len(rec['designs'])
+  return {'nontrivial': True, 'fp': util.fp([desc, 'collinear']), 'classes': ['collinear'], 'counters': dict(counters),
+          'violations': violations[:6], 'sample': {'case': desc, 'corr': c_, 'pair_budget': B},
+          'case': sl.describe(case) if violations else None}
+
+
 def gen_rows_excludable(cls):
   from mmv import gen  # pylint: disable=g-import-not-at-top
   return gen.ROWS[cls][2] == 1
@@ -195,6 +252,8 @@ def run_case(spec):
     return run_near_bound(spec, r, g)
   if spec['kind'] == 'gap':
     return run_share_gap(spec, r, g)
+  if spec['kind'] == 'collinear':
+    return run_collinear(spec, r, g)
   which_list = ('exhaustive', 'greedy')
   focus = ['budget', 'share', 'ratio', 'volume', 'size', 'budget', None][spec['idx'] % 7]
   if spec['kind'] == 'large':
